@@ -99,31 +99,22 @@ def _paths(body, env, conds):
 
 
 def _sign_of(conds, coeff):
-    """'nonneg' / 'neg' / 'pos' / 'zero' / None from the path conditions on the coefficient"""
-    sgn = None
+    """the set of signs ('neg', 'zero', 'pos') the coefficient can have on a path, from its conditions; None if a
+    condition is not a comparison of the coefficient with 0"""
+    table = {
+        "%s >= 0": {"zero", "pos"}, "%s > 0": {"pos"}, "%s < 0": {"neg"}, "%s <= 0": {"neg", "zero"}, "%s == 0": {"zero"}, "%s != 0": {"neg", "pos"},
+        "0 <= %s": {"zero", "pos"}, "0 < %s": {"pos"}, "0 > %s": {"neg"}, "0 >= %s": {"neg", "zero"}, "0 == %s": {"zero"}, "0 != %s": {"neg", "pos"},
+        "not %s": {"zero"},
+    }
+    table = dict((k % coeff, v) for k, v in table.items())
+    table[coeff] = {"neg", "pos"}
+    signs = {"neg", "zero", "pos"}
     for t, taken in conds:
         s = norm(t)
-        table = {
-            "%s >= 0" % coeff: ("nonneg", "neg"),
-            "%s > 0" % coeff: ("pos", "nonpos"),
-            "%s < 0" % coeff: ("neg", "nonneg"),
-            "%s <= 0" % coeff: ("nonpos", "pos"),
-            "0 <= %s" % coeff: ("nonneg", "neg"),
-            "0 > %s" % coeff: ("neg", "nonneg"),
-            "%s == 0" % coeff: ("zero", None),
-        }
         if s not in table:
-            return "?"
-        v = table[s][0 if taken else 1]
-        if v is None:
-            continue
-        if sgn is None or (sgn, v) in (("nonneg", "pos"), ("nonpos", "neg")):
-            sgn = v
-        elif (sgn, v) in (("nonneg", "nonneg"), ("neg", "neg"), ("pos", "pos"), ("pos", "nonneg"), ("neg", "nonpos")):
-            pass
-        else:
-            return "?"
-    return sgn
+            return None
+        signs &= table[s] if taken else ({"neg", "zero", "pos"} - table[s])
+    return signs
 
 
 def rule_b(res, m):
@@ -142,35 +133,34 @@ def rule_b(res, m):
         "neg": norm(ast.parse("4 * -%s // quant_factor(%s)" % (coeff, qi)).body[0].value),
     }
     covered = set()
-    all_ok = True
     for conds, value in paths:
-        sgn = _sign_of(conds, coeff)
-        if value is None or sgn in ("?",):
-            all_ok = False
-            res.check(False, "C12.b", "forward_quant:path:%s" % ",".join("%s%s" % ("" if k else "not ", short(t, 30)) for t, k in conds), where, "path condition is not a sign test of the coefficient, or nothing is returned", by="")
+        signs = _sign_of(conds, coeff)
+        label = ",".join("%s%s" % ("" if k else "not ", short(t, 30)) for t, k in conds) or "always"
+        if value is None or signs is None:
+            res.check(False, "C12.b", "forward_quant:path:%s" % label, where, "path condition is not a comparison of the coefficient with 0, or nothing is returned", by="")
             continue
+        if not signs:
+            continue  # infeasible path
+        covered |= signs
         v = value
         negated = False
         if isinstance(v, ast.UnaryOp) and isinstance(v.op, ast.USub):
             negated, v = True, v.operand
         nv = norm(v)
-        key = "forward_quant:%s" % (sgn or "any")
-        if sgn is None:
-            # one expression for both signs: sign(coeff) * (4*abs(coeff) // quant_factor(qi))
-            ok = not negated and nv in (norm(ast.parse("sign(%s) * (%s)" % (coeff, quot["abs"])).body[0].value), norm(ast.parse("(%s) * sign(%s)" % (quot["abs"], coeff)).body[0].value))
-            covered.update(["nonneg", "neg"])
-            res.check(ok, "C12.b", key + ":sign-times-truncated-quotient", where, "with no sign test the value must be sign(coeff) * ((4*abs(coeff)) // quant_factor(index)) (found %s)" % short(value, 100), by="sign(coeff) * truncated quotient")
-        elif sgn in ("nonneg", "pos", "zero"):
-            ok = not negated and nv in (quot["abs"], quot["id"])
-            covered.add("nonneg" if sgn == "nonneg" else sgn)
-            res.check(ok, "C12.b", key + ":floor-of-nonnegative", where, "for a non-negative coefficient the value must be (4*coeff) // quant_factor(index) with the factor of the same index (found %s)" % short(value, 100), by="(4*|coeff|) // quant_factor(%s)" % qi)
-        else:  # neg / nonpos
-            ok = negated and nv in (quot["abs"], quot["neg"])
-            covered.add("neg")
-            res.check(ok, "C12.b", key + ":negated-floor-of-magnitude", where, "for a negative coefficient the value must be -((4*|coeff|) // quant_factor(index)): the negation applied to the quotient, not inside the floor division (which would round away from zero and can reach a full quantisation step of error) (found %s)" % short(value, 100), by="-((4*|coeff|) // quant_factor(%s))" % qi)
-        all_ok = all_ok and ok
-    full = ("nonneg" in covered or {"pos", "zero"} <= covered) and "neg" in covered
-    res.check(full, "C12.b", "forward_quant:both-signs-covered", where, "both signs of the coefficient must have a returning path (found %s)" % sorted(covered), by="paths for %s" % sorted(covered))
+        sym = not negated and nv in (norm(ast.parse("sign(%s) * (%s)" % (coeff, quot["abs"])).body[0].value), norm(ast.parse("(%s) * sign(%s)" % (quot["abs"], coeff)).body[0].value))
+        zero_const = not negated and isinstance(v, ast.Constant) and v.value == 0 and type(v.value) is int
+        if signs == {"zero"}:
+            ok = zero_const or sym or nv in (quot["abs"], quot["id"], quot["neg"])
+            res.check(ok, "C12.b", "forward_quant:zero:zero", where, "for a zero coefficient the value must be 0 (or the general quotient) (found %s)" % short(value, 100), by="0")
+        elif "neg" in signs and "pos" in signs:
+            res.check(sym, "C12.b", "forward_quant:any:sign-times-truncated-quotient", where, "with no sign test the value must be sign(coeff) * ((4*abs(coeff)) // quant_factor(index)) (found %s)" % short(value, 100), by="sign(coeff) * truncated quotient")
+        elif "neg" in signs:  # {neg} or {neg, zero}
+            ok = sym or (negated and nv in (quot["abs"], quot["neg"]))
+            res.check(ok, "C12.b", "forward_quant:neg:negated-floor-of-magnitude", where, "for a negative coefficient the value must be -((4*|coeff|) // quant_factor(index)): the negation applied to the quotient, not inside the floor division (which would round away from zero and can reach a full quantisation step of error) (found %s)" % short(value, 100), by="-((4*|coeff|) // quant_factor(%s))" % qi)
+        else:  # {pos} or {zero, pos}
+            ok = sym or (not negated and nv in (quot["abs"], quot["id"]))
+            res.check(ok, "C12.b", "forward_quant:nonneg:floor-of-nonnegative", where, "for a non-negative coefficient the value must be (4*coeff) // quant_factor(index) with the factor of the same index (found %s)" % short(value, 100), by="(4*|coeff|) // quant_factor(%s)" % qi)
+    res.check(covered == {"neg", "zero", "pos"}, "C12.b", "forward_quant:both-signs-covered", where, "every sign of the coefficient must have a returning path (found %s)" % sorted(covered), by="paths for %s" % sorted(covered))
     # the quotient's factor is the one inverse_quant multiplies by
     inv = m.funcs["inverse_quant"]
     iq = inv.args.args[1].arg
